@@ -1242,6 +1242,14 @@ def make_stub(name, results=("FINISHED", "PUNT", "REQUEUE"), may_raise=True, hav
                 out.append((k == i, _fresh_entry(eng, st, state, short + ".ent")))
             elif rname == "str":
                 out.append((k == i, P.fresh("str", short + ".str")))
+            elif rname == "triple":
+                # (old id, new id, new path) or three Nones
+                some = z3.Bool(P.fresh_name(short + ".moved"))
+                a_, b_, c_ = P.fresh("str", short + ".old"), P.fresh("str", short + ".new"), P.fresh("str", short + ".path")
+                for t_ in (a_, b_, c_):
+                    st.axiom(z3.Length(t_.t) > 0)
+                out.append((zand(k == i, some), T([a_, b_, c_])))
+                out.append((zand(k == i, znot(some)), T([NONE, NONE, NONE])))
             elif rname == "str_pair":
                 out.append((k == i, T([P.fresh("str", short + ".a"), P.fresh("str", short + ".b")])))
             else:
